@@ -446,9 +446,12 @@ async def run_program(prog: dict[str, Any], out: dict[str, Any], pace_timeout: f
             await senders[i].send(Sample(T0 - timedelta(seconds=j), Quantity(9000.0 + 10 * i + j)))
     if prog.get("prelude"):
         await asyncio.sleep(0.01)
+    gap = prog.get("gap")  # [round, leaf]: that stream has no sample at all for that timestamp
     for k, vec in enumerate(prog["vectors"]):
         ts = T0 + timedelta(seconds=k)
         for i in range(n):
+            if gap and gap[0] == k and gap[1] == i:
+                continue
             await senders[i].send(Sample(ts, encode(vec[i], missing[k][i])))
         got = []
         try:
